@@ -85,11 +85,11 @@ func (c *Ctx) MinCount(rule string, min int) {
 	}
 }
 
-func (c *Ctx) Note(f string, a ...any)    { c.Notes = append(c.Notes, fmt.Sprintf(f, a...)) }
-func (c *Ctx) Fn(name string)             { c.Funcs[name] = true }
-func (c *Ctx) DecidedClause(s string)     { c.Decided = append(c.Decided, s) }
-func (c *Ctx) UndecidedClause(s string)   { c.Undecided = append(c.Undecided, s) }
-func (c *Ctx) Assumption(s string)        { c.Assume = append(c.Assume, s) }
+func (c *Ctx) Note(f string, a ...any)  { c.Notes = append(c.Notes, fmt.Sprintf(f, a...)) }
+func (c *Ctx) Fn(name string)           { c.Funcs[name] = true }
+func (c *Ctx) DecidedClause(s string)   { c.Decided = append(c.Decided, s) }
+func (c *Ctx) UndecidedClause(s string) { c.Undecided = append(c.Undecided, s) }
+func (c *Ctx) Assumption(s string)      { c.Assume = append(c.Assume, s) }
 
 // ---- known findings -----------------------------------------------------------------------
 
@@ -277,4 +277,37 @@ func checkerFailure(verifDir, prop, tier string, seed int, start time.Time, reas
 	fmt.Printf("CHECKER FAILURE: %s\n", reason)
 	fmt.Printf("VIOLATION property=%s replay=%s\n", prop, vp)
 	return 1
+}
+
+// importRules runs another property's rule set on a scratch context and files those of its obligations whose rule id is
+// listed in `only` under rule id `as` of this property (key prefixed with the original rule id).  Used where a rule
+// decided for one property is a necessary condition of another one too (e.g. the transport relays for "no stuck notes").
+func (c *Ctx) importRules(from func(*Ctx), only []string, as string) {
+	sub := NewCtx(c.P, c.Property, c.Tier)
+	from(sub)
+	want := map[string]bool{}
+	for _, r := range only {
+		want[r] = true
+	}
+	n := 0
+	for _, o := range sub.Obs {
+		if !want[o.Rule] {
+			continue
+		}
+		if o.Rule == "count" || strings.HasPrefix(o.Key, "instance-count") {
+			continue
+		}
+		o.Key = o.Rule + ":" + o.Key
+		o.Rule = as
+		c.Obs = append(c.Obs, o)
+		c.Counts[as]++
+		n++
+	}
+	c.Paths += sub.Paths
+	for f := range sub.Funcs {
+		c.Funcs[f] = true
+	}
+	if n == 0 {
+		c.Undec(as, "imported("+strings.Join(only, ",")+")", "-", "the imported rules produced no obligation")
+	}
 }
